@@ -8,6 +8,24 @@ ELLIPSIS_PATTERN: Pattern[str] = re.compile(
 
 
 def ellipses(text: str) -> str:
+    """
+    Replace `...` with an ellipsis character in prose. Template tags (`{% %}`, `{# #}`,
+    `{{ }}`) and HTML comments are never modified; see `_ellipses_in_text` for the rules.
+    """
+    # Imported here to avoid a circular import at module load time.
+    from flowmark.linewrapping.tag_handling import TEMPLATE_TAG_PATTERN
+
+    parts: list[str] = []
+    last_end = 0
+    for match in TEMPLATE_TAG_PATTERN.finditer(text):
+        parts.append(_ellipses_in_text(text[last_end : match.start()]))
+        parts.append(match.group(0))
+        last_end = match.end()
+    parts.append(_ellipses_in_text(text[last_end:]))
+    return "".join(parts)
+
+
+def _ellipses_in_text(text: str) -> str:
     r"""
     Replace three consecutive dots with a proper ellipsis character (…).
 
